@@ -316,10 +316,9 @@ class SpooledBytesIO(SpooledIOBase):
 
     def readline(self, length=None):
         self._checkClosed()
-        if length:
-            return self.buffer.readline(length)
-        else:
+        if length is None:
             return self.buffer.readline()
+        return self.buffer.readline(length)
 
     def readlines(self, sizehint=0):
         return self.buffer.readlines(sizehint)
@@ -458,6 +457,8 @@ class SpooledStringIO(SpooledIOBase):
         self._checkClosed()
         if length is not None and length < 0:
             length = None
+        if length == 0:
+            return ''
         ret = self.buffer.readline(length).decode('utf-8')
         # The codec reader also stops at '\r' and the other unicode
         # line boundaries; like io.StringIO, only '\n' ends a line here
